@@ -45,6 +45,8 @@ type Scenario struct {
 	Root      CmdDef      `json:"root"`
 	Help      bool        `json:"help_command,omitempty"`
 	HelpAlias bool        `json:"help_alias,omitempty"`
+	HelpName  string      `json:"help_name,omitempty"`  // name of the help command/option ("help" when empty)
+	DescStyle int         `json:"desc_style,omitempty"` // 0 plain descriptions; 1 with newlines and tabs; 2 with format verbs; 3 very long
 	Mode      int         `json:"mode"`
 	Unknown   int         `json:"unknown_mode"`
 	Lower     bool        `json:"map_keys_to_lower,omitempty"`
@@ -114,7 +116,7 @@ func (sc *Scenario) DefinitionCalls() []string {
 }
 
 // Words share prefixes on purpose (abbreviation ambiguity, completion lists with several entries).
-var words = []string{"v", "ver", "verbose", "version", "val", "value", "values", "f", "fo", "foo", "force", "file", "files", "b", "bar", "baz", "build", "x", "xy", "q", "quiet", "quick", "d", "debug", "dry", "t", "tag", "tags", "n", "name", "V", "Ver", "File", "Q", "B", "Tag", "N", "Name", "include", "exclude", "valued", "dry-run", "dry-runs", "v2", "job-count", "jobs", "x-y"}
+var words = []string{"v", "ver", "verbose", "version", "val", "value", "values", "f", "fo", "foo", "force", "file", "files", "b", "bar", "baz", "build", "x", "xy", "q", "quiet", "quick", "d", "debug", "dry", "t", "tag", "tags", "n", "name", "V", "Ver", "File", "Q", "B", "Tag", "N", "Name", "include", "exclude", "valued", "dry-run", "dry-runs", "v2", "job-count", "jobs", "x-y", "1", "22", "build", "log", "a-very-long-option-name-that-forces-the-help-to-wrap-its-columns"}
 var cmdWords = []string{"build", "bench", "bump", "clean", "check", "clone", "test", "tidy", "run", "log", "logs", "login", "show", "slow", "status"}
 
 func genOpts(r *simrt.RNG, taken map[string]bool, n int, reqBias int) []OptDef {
@@ -141,6 +143,9 @@ func genOpts(r *simrt.RNG, taken map[string]bool, n int, reqBias int) []OptDef {
 			switch r.Intn(4) {
 			case 0:
 				o.Valid = []string{"red", "green", "blue", "grey"}[:2+r.Intn(3)]
+				if r.Intn(4) == 0 {
+					o.Valid = append(o.Valid, o.Valid[0])
+				}
 			case 1:
 				o.Suggested = []string{"alpha", "beta", "gamma", "alps"}[:2+r.Intn(3)]
 				if r.Intn(2) == 0 { // values that look like an unfinished assignment
@@ -213,7 +218,7 @@ func genCmd(r *simrt.RNG, name string, taken map[string]bool, depth int, reqBias
 	if r.Intn(6) == 0 {
 		c.ArgCompFns = 1 + r.Intn(2)
 	}
-	if depth < 2 && r.Intn(3) == 0 {
+	if depth < 4 && r.Intn(1+2*depth) == 0 {
 		used := map[string]bool{}
 		for i, n := 0, 2+r.Intn(2); i < n; i++ {
 			w := cmdWords[r.Intn(len(cmdWords))]
@@ -306,6 +311,10 @@ func Generate(seed uint64) *Scenario {
 	}
 	sc.Help = r.Intn(3) != 0
 	sc.HelpAlias = sc.Help && r.Intn(2) == 0
+	if sc.Help && r.Intn(6) == 0 {
+		sc.HelpName = "info"
+	}
+	sc.DescStyle = []int{0, 0, 0, 1, 2, 3}[r.Intn(6)]
 	sc.Mode = r.Intn(3)
 	sc.Unknown = r.Intn(3)
 	sc.Lower = r.Intn(6) == 0
